@@ -23,10 +23,19 @@ peer's answers are INPUTS (`Env`), consumed in order.
 
 The model mirrors the code AFTER the repairs
   * F4  (`apply_S` exists on virtualQubit / simulatedQubit / engines),
-  * qalloc roll-back (a `qalloc` whose `cmd_new` fails un-maps the address);
+  * qalloc roll-back (a `qalloc` whose `cmd_new` fails un-maps the address),
+  * application IDs can be used again after StopApp (InitNewApp is always answered);
 and the code AS IT IS for F13 (a `create_epr`/`recv_epr` that fails between
 `cmd_new` / registration and the hand-over to the unit module leaves its
-qubits in `qubitList`; counted in the ghost field `leaked`).
+qubits in `qubitList`; counted in the ghost field `leaked`), including what
+netqasm keeps after such a failure: the request record of the finished
+subroutine stays at the head of its list (`St.stale`), and a response whose
+handling raised stays in `_pending_epr_responses` (`St.broken`) — the next
+request on that key, resp. every later request, then fails at the hand-over.
+
+Entanglement requests are modelled for create-and-keep only, as far as C11
+needs them (who holds which qubit); sequence numbers, create ids and the
+contents of the link-layer records are C08's business and enter as inputs.
 -/
 namespace SqVerif.NqExec
 
